@@ -36,7 +36,8 @@ Deliberate choices (documented deviations / strengthenings of the spec text)
 * for dense unions only "offset within the selected child" is required (the spec's
   per-child increasing-offset rule is not needed for safe access and is not modelled);
 * lengths are unbounded naturals (the 2^63 limit of the C data interface is not modelled);
-* view types (Utf8View/BinaryView), list-views and maps are not modelled yet.
+* view arrays are checked at every slot, valid or null, like `Utf8` (same reason);
+* list-views are not modelled; a Map is physically a `List<Struct<key not null, value>>`.
 -/
 namespace ArrowModel.Physical
 
@@ -56,6 +57,8 @@ inductive DType where
   | binary (large : Bool)
   /-- `FixedSizeBinary(n)` -/
   | fsb (n : Nat)
+  /-- `Utf8View` (`utf8 = true`) / `BinaryView` -/
+  | view (utf8 : Bool)
   /-- `List` / `LargeList` of `item`, item field nullable or not -/
   | list (large : Bool) (item : DType) (nullable : Bool)
   /-- `FixedSizeList(item, n)` -/
@@ -93,6 +96,7 @@ def DType.beq : DType → DType → Bool
   | .utf8 a, .utf8 b => a == b
   | .binary a, .binary b => a == b
   | .fsb a, .fsb b => a == b
+  | .view a, .view b => a == b
   | .list a b c, .list a' b' c' => a == a' && b.beq b' && c == c'
   | .fsl a b c, .fsl a' b' c' => a == a' && b.beq b' && c == c'
   | .struct f, .struct g => f.beq g
@@ -114,6 +118,7 @@ theorem DType.beq_iff : ∀ (a b : DType), a.beq b = true ↔ a = b
   | .utf8 _, b => by cases b <;> simp [DType.beq]
   | .binary _, b => by cases b <;> simp [DType.beq]
   | .fsb _, b => by cases b <;> simp [DType.beq]
+  | .view _, b => by cases b <;> simp [DType.beq]
   | .list _ i _, b => by
       cases b <;> simp [DType.beq]
       rename_i a' i' c'
@@ -292,6 +297,43 @@ def keyOk (keys : List Nat) (kw : Nat) (signed : Bool) (n : Nat) (p : Nat) : Boo
   | some k => decide (0 ≤ k ∧ k < (n : Int))
   | none => false
 
+/-- little-endian `u32` at byte `pos` of a 16-byte view (bytes outside read as 0) -/
+def le32 (v : List Nat) (pos : Nat) : Nat :=
+  v.getD pos 0 % 256 + 256 * (v.getD (pos + 1) 0 % 256) + 65536 * (v.getD (pos + 2) 0 % 256)
+    + 16777216 * (v.getD (pos + 3) 0 % 256)
+
+/-- the view at physical position `p` (`inl` = maximum inline length, 12): inline views are zero
+padded (and well-formed UTF-8 for `Utf8View`); long views name an existing data buffer, lie inside
+it, carry its first four bytes as prefix (and are well-formed UTF-8) -/
+def viewSlotOkN (inl : Nat) (views : List Nat) (datas : List (List Nat)) (utf8 : Bool) (p : Nat) : Bool :=
+  match sliceChecked views (p * 16) (p * 16 + 16) with
+  | none => false
+  | some v =>
+    let len := le32 v 0
+    if len ≤ inl then
+      (v.drop (4 + len)).all (fun b => b % 256 == 0) && (!utf8 || utf8Valid ((v.drop 4).take len))
+    else
+      match datas[le32 v 8]? with
+      | none => false
+      | some data =>
+        match sliceChecked data (le32 v 12) (le32 v 12 + len) with
+        | none => false
+        | some b => (b.take 4 == (v.drop 4).take 4) && (!utf8 || utf8Valid b)
+
+/-- `viewSlotOkN` with the format's inline limit of 12 bytes -/
+def viewSlotOk := viewSlotOkN 12
+
+/-- the value bytes a view denotes -/
+def viewValue (views : List Nat) (datas : List (List Nat)) (p : Nat) : Option (List Nat) :=
+  match sliceChecked views (p * 16) (p * 16 + 16) with
+  | none => none
+  | some v =>
+    let len := le32 v 0
+    if len ≤ 12 then sliceChecked v 4 (4 + len)
+    else match datas[le32 v 8]? with
+      | none => none
+      | some data => sliceChecked data (le32 v 12) (le32 v 12 + len)
+
 /-- index of the first field with type id `id` -/
 def Fields.indexOf (fs : Fields) (id : Int) : Option Nat :=
   match fs with
@@ -382,6 +424,9 @@ def LocalWF (d : ArrayData) : Prop :=
     d.children = [] ∧ ∃ b, d.buffers = [b] ∧ (d.offset + d.len) * w ≤ b.length
   | .fsb n =>
     d.children = [] ∧ ∃ b, d.buffers = [b] ∧ (d.offset + d.len) * n ≤ b.length
+  | .view utf8 =>
+    d.children = [] ∧ ∃ views datas, d.buffers = views :: datas ∧ (d.offset + d.len) * 16 ≤ views.length ∧
+      ∀ i, i < d.len → viewSlotOk views datas utf8 (d.offset + i) = true
   | .binary large =>
     d.children = [] ∧ ∃ offs data, d.buffers = [offs, data] ∧
       ((d.len = 0 ∧ offs = []) ∨
@@ -455,6 +500,13 @@ def localWFB (d : ArrayData) : Bool :=
     match d.buffers with
     | [b] => decide ((d.offset + d.len) * n ≤ b.length)
     | _ => false
+  | .view utf8 =>
+    d.children.isEmpty &&
+    match d.buffers with
+    | views :: datas =>
+      decide ((d.offset + d.len) * 16 ≤ views.length) &&
+      allBelow d.len (fun i => viewSlotOk views datas utf8 (d.offset + i))
+    | [] => false
   | .binary large =>
     d.children.isEmpty &&
     match d.buffers with
@@ -586,6 +638,10 @@ def slotVal (d : ArrayData) (cvs : List (List Val)) (i : Nat) : Option Val :=
       match d.buffers with
       | [offs, data] => (binValue offs data large p).map .bytes
       | _ => none
+    | .view _ =>
+      match d.buffers with
+      | views :: datas => (viewValue views datas p).map .bytes
+      | [] => none
     | .list large _ _ =>
       match d.buffers, cvs with
       | [offs], [cv] =>
